@@ -1,6 +1,7 @@
 import WM.Proto
 import WM.Model.Parser
 import WM.Spec.Parser
+import WM.Model.ParserTag
 namespace WM.Drv.C16
 open WM.Proto WM.Parser
 
@@ -188,7 +189,32 @@ def showExcept {α} (f : α → String) : Except Err α → String
   | .ok a => "ok " ++ f a
   | .error e => "err " ++ showErr e
 
+def qchar? : SExp → Option QChar
+  | .list [c, s] => do some ⟨← c.nat?, ← s.bool?⟩
+  | _ => none
+
+def hit? : SExp → Option (Nat × TagHit)
+  | .list [p, n, e, t] => do some (← p.nat?, ⟨← node? n, ← e.nat?, ← t.bool?⟩)
+  | _ => none
+
+def tagger? : SExp → Option Tagger
+  | .atom "opn" => some .opn
+  | .atom "cls" => some .cls
+  | .atom "ws" => some .ws
+  | .list [.atom "op", lit, a, b, t, g, la] => do
+    some (.op (← str? lit) (← a.bool?) (← b.bool?) (← opT? t) (← gk? g) (← la.bool?))
+  | .list [.atom "ext", .list hits] => do
+    let tbl ← hits.mapM hit?
+    some (.ext fun p => (tbl.find? (·.1 == p)).map (·.2))
+  | _ => none
+
+def showTagged (x : Tagged) : String := s!"({showNode x.node} {x.startchar} {x.endchar})"
+
 def handle : List SExp → String
+  | [.atom "tag", .list cs, .list tgs] =>
+    match cs.mapM qchar?, tgs.mapM tagger? with
+    | some cs, some tgs => showExcept (showList showTagged) (tag tgs cs)
+    | _, _ => "bad-op"
   | [.atom "filterize", c, .list ns] =>
     match cfg? c, ns.mapM node? with
     | some c, some ns => showExcept showNode (filterize c ns)
